@@ -36,7 +36,7 @@ theorem c01_exit_status (w : Bool) (v p : Nat) :
     exitStatus w v p ∈ [0, 2, 3] := by
   rcases exit_status_range w v p with h | h | h <;> simp [h]
 
-example : [1, 0].Perm (List.range [Mod.mk false [], Mod.mk true [0]].length) := by decide
+example : [1, 0].Perm (List.range [Mod.mk false [] [], Mod.mk true [0] []].length) := by decide
 
 end Schedule
 
